@@ -26,19 +26,26 @@ def project(c, r):
 
 
 def gen(ctx):
+    # more distinct datapath addresses in one runtime than a 16-bit number holds, then coinciding flow ids on the first and the last
+    yield Case("RUNBIG", "65537", tags=("many-addresses",))
+    yield Case("RUNBIG", "65600", tags=("many-addresses",))
     rng = ctx.rng
     for _ in range(40000 if ctx.thorough else 2000):
         yield Case("RUN", R.gen_case(rng, n=rng.randrange(2, 61 if ctx.thorough else 31), addrs=rng.choice([(5, 6), (5, 6, 7), (5, 0), (0, 9, 5), (0, 4294967295)]), adversarial=0.02, faults=0.02, stop=0.01), tags=("history",))
 
 
 def classify(c, r):
+    if c.cmd == "RUNBIG":
+        return ["many-addresses:" + r.split(" | ")[-1]]
     parts = r.split(" | ")
     return ["events:%d" % min(len(parts) // 10 * 10, 80), "end:" + parts[-1].split(" ")[1]]
 
 
 def nontrivial(c, r):
-    return r.count("NF ") >= 2 and len(set(p.split(" ")[1] for p in r.split(" | ") if p.startswith("RX "))) >= 2
+    return c.cmd == "RUNBIG" or r.count("NF ") >= 2 and len(set(p.split(" ")[1] for p in r.split(" | ") if p.startswith("RX "))) >= 2
 
 
 def oracle(c, impl_res):
+    if c.cmd == "RUNBIG":
+        return None  # decided against the model: the specification's callbacks for that history (DESIGN 11.8)
     return ("ORC", "C09 %s" % impl_res)
